@@ -19,6 +19,16 @@ and an `end` line (final length, capacity-conservation probe).
   the call's `[tinv, tres]` bracket, including the timer path (`arm`/`fire`/`selTimer`/`repeek`) when the
   call had to wait for its element's expiry; plus the white-box facts (capacity, final length).
   A search that exhausts its budget is never reported.
+
+No false alarms under load.  Every observation that rests on a timing assumption is worded
+"timing-sensitive: …": the order of two deadlines (the comparator reads `Delay()` of its two arguments at
+two instants; the tie tolerance is max(2 ms, 2 × the scheduling jitter `jit=` measured by the harness during
+the scenario) and the model's exact-minimum replay is skipped — inconclusive — when two distinct deadlines
+of the scenario are closer than that), the wake-up bound (2 s + 4·jit), the watchdog (hang).  The harness
+re-executes a scenario whose only complaints are timing-sensitive and keeps an accepted execution if there
+is one, so such a complaint is reported only when reproduced three times.  Observations that need no
+timing assumption (early release: `tres`, `rem` and the deadline are read from the same monotonic clock;
+duplicates; losses; capacity; effects of failed calls) are reported at once.
 -/
 namespace Driver.DelayQ
 open Ekit.DelayQ Ekit.Conc Driver
@@ -42,8 +52,12 @@ structure St where
   broken : Bool := false      -- an earlier line of the case was unreadable / a call hung: skip whole-history checks
   active : Bool := false
 
-def tolTie : Nat := 2000          -- µs, clock-resolution ties
-def wakeBound : Nat := 2000000    -- µs, generous
+def tolTie : Nat := 2000          -- µs, clock-resolution ties (floor; widened by the measured jitter)
+def wakeBound : Nat := 2000000    -- µs, generous (widened by the measured jitter)
+def tm : String := "timing-sensitive: "
+
+/-- tie tolerance for a scenario whose measured scheduling jitter was `jit` µs -/
+def tieTol (jit : Nat) : Nat := max tolTie (2 * jit)
 
 /-! ### monitors (spec) -/
 
@@ -72,21 +86,21 @@ def checkExactlyOnce (cs : Array CallRec) : Option String :=
         else if d.sres < e.sinv then some s!"element {d.id} dequeued before its Enqueue was invoked"
         else none
 
-def checkEarliest (cs : Array CallRec) : Option String :=
+def checkEarliest (tol : Nat) (cs : Array CallRec) : Option String :=
   firstSome (okDeqs cs) fun c =>
     firstSome (okEnqs cs) fun e =>
-      if e.id != c.id && coResident cs c e && e.dl + tolTie < c.dl then
-        some s!"Dequeue returned {c.id} (deadline {c.dl}) although {e.id} (deadline {e.dl}) was in the queue for the whole call"
+      if e.id != c.id && coResident cs c e && e.dl + tol < c.dl then
+        some s!"{tm}Dequeue returned {c.id} (deadline {c.dl}) although {e.id} (deadline {e.dl}) was in the queue for the whole call"
       else none
 
-def checkWake (cap : Nat) (cs : Array CallRec) : Option String :=
+def checkWake (wakeBound : Nat) (cap : Nat) (cs : Array CallRec) : Option String :=
   firstSome cs.toList fun c =>
     if !c.isEnq && c.res == "ok" then
       match enqueuerOf cs c.id with
       | some e =>
         let t0 := max c.tinv (max c.dl e.tres)
         if c.tres > t0 + wakeBound then
-          some s!"Dequeue of {c.id} returned {c.tres - t0} us after the element was available and expired (lost or late wake-up)"
+          some s!"{tm}Dequeue of {c.id} returned {c.tres - t0} us after the element was available and expired (lost or late wake-up)"
         else none
       | none => none
     else if !c.isEnq && c.res == "ctx" then
@@ -96,7 +110,7 @@ def checkWake (cap : Nat) (cs : Array CallRec) : Option String :=
           | some d => c.sres < d.sinv
         let t0 := max c.tinv (max e.dl e.tres)
         if present && c.tres > t0 + wakeBound then
-          some s!"Dequeue stayed blocked (then ctx error) {c.tres - t0} us while {e.id} was in the queue and expired (lost wake-up)"
+          some s!"{tm}Dequeue stayed blocked (then ctx error) {c.tres - t0} us while {e.id} was in the queue and expired (lost wake-up)"
         else none
     else if c.isEnq && c.res == "ctx" && cap > 0 then
       -- instants from which the queue certainly had a free slot until c gave up
@@ -109,7 +123,7 @@ def checkWake (cap : Nat) (cs : Array CallRec) : Option String :=
               | some d => d.tres ≤ t0
               | none => false)
         if others.length < cap && c.tres > t0 + wakeBound then
-          some s!"Enqueue of {c.id} stayed blocked (then ctx error) {c.tres - t0} us while the queue had a free slot (lost wake-up)"
+          some s!"{tm}Enqueue of {c.id} stayed blocked (then ctx error) {c.tres - t0} us while the queue had a free slot (lost wake-up)"
         else none
     else none
 
@@ -131,11 +145,11 @@ def checkEnd (cap : Nat) (cs : Array CallRec) (obs : String) : Option String :=
             fieldInts obs "drained" with
       | some free, some fill, some extra, some drained =>
         if free + fl != cap then some s!"probe: free={free} but cap-len={cap - fl}"
-        else if fill != free then some s!"after the calls (and cancellations) of the scenario the queue accepted {fill} more elements, capacity - length is {free}"
+        else if drained.eraseDups.length != drained.length then some "probe: an element was delivered twice"
+        else if fill != free then some s!"{tm}after the calls (and cancellations) of the scenario the queue accepted {fill} more elements, capacity - length is {free}"
         else if extra != "ctx" then some s!"a full queue accepted one more element ({extra})"
         else if !((List.range fill).all fun i => drained.contains ((900000 + i : Nat) : Int)) then
-          some s!"the queue did not deliver the elements it accepted: drained {renderInts drained}"
-        else if drained.eraseDups.length != drained.length then some "probe: an element was delivered twice"
+          some s!"{tm}the queue did not deliver the elements it accepted: drained {renderInts drained}"
         else none
       | _, _, _, _ => some "end line of a bounded case without the capacity probe"
 
@@ -190,8 +204,12 @@ partial def dfs (P : Params) (calls : Array CallRec) (done : Nat) (s : State) (s
   return (false, st)
 
 /-- none = explained by the model (or budget exhausted) -/
-def modelExplains (P : Params) (cs : Array CallRec) : Option String :=
+def modelExplains (P : Params) (tol : Nat) (cs : Array CallRec) : Option String :=
   let oks := cs.filter (·.res == "ok")
+  -- two distinct deadlines closer than the tie tolerance: the heap may legitimately hold them in either
+  -- order ("up to clock-resolution ties"), the exact-minimum replay would be inconclusive
+  let ambiguous := oks.toList.any fun c => oks.toList.any fun d =>
+    c.dl < d.dl && d.dl ≤ c.dl + tol
   let ctxs := cs.filter (·.res == "ctx")
   -- calls that failed with a context error: the model's run for them must exist (and has no effect)
   let ctxBad := ctxs.toList.find? fun c =>
@@ -202,11 +220,11 @@ def modelExplains (P : Params) (cs : Array CallRec) : Option String :=
   match ctxBad with
   | some c => some s!"model: no effect-free run for the ctx-error call of thread {c.thr}"
   | none =>
-    if oks.size > 40 then none else
+    if oks.size > 40 || ambiguous then none else
     let (ok, st) := dfs P oks 0 init {}
     if ok then none
     else if st.fuel == 0 then none
-    else some "model: no interleaving of model runs (Ekit.DelayQ.step) inside the calls' time brackets explains the successful calls"
+    else some s!"{tm}model: no interleaving of model runs (Ekit.DelayQ.step) inside the calls' time brackets explains the successful calls"
 
 /-! ### the line acceptor -/
 
@@ -254,11 +272,13 @@ def checker (model : Bool) : Checker where
     | ["end"] =>
       if !st.active then (st, some "end without case")
       else if st.broken then ({ st with active := false }, none)
-      else if resultTok obs == "hang" then ({ st with active := false }, some "the quiescent probe did not return (lock leaked or lost wake-up)")
+      else if resultTok obs == "hang" then ({ st with active := false }, some s!"{tm}the quiescent probe did not return (lock leaked or lost wake-up)")
       else
-        let r := (checkExactlyOnce st.calls) <|> (checkEarliest st.calls) <|> (checkWake st.cap st.calls)
-                  <|> (checkEnd st.cap st.calls obs)
-        let r := r <|> (if model then modelExplains ⟨st.disc, st.cap⟩ st.calls else none)
+        let jit := (fieldNat obs "jit").getD 0
+        let tol := tieTol jit
+        let r := (checkExactlyOnce st.calls) <|> (checkEnd st.cap st.calls obs) <|> (checkEarliest tol st.calls)
+                  <|> (checkWake (wakeBound + 4 * jit) st.cap st.calls)
+        let r := r <|> (if model then modelExplains ⟨st.disc, st.cap⟩ tol st.calls else none)
         ({ st with active := false }, r)
     | _ =>
       if !st.active then (st, some "no-case")
@@ -266,7 +286,7 @@ def checker (model : Bool) : Checker where
       | none => ({ st with broken := true }, some s!"call failed or unreadable: {op} => {obs}")
       | some c =>
         let st' := { st with calls := st.calls.push c }
-        if c.res == "hang" then ({ st' with broken := true }, some "the call did not return although its context ended (hang)")
+        if c.res == "hang" then ({ st' with broken := true }, some s!"{tm}the call did not return although its context ended (hang)")
         else
           let len := (fieldNat obs "len").getD 0
           if st.cap > 0 && len > st.cap then (st', some s!"length {len} exceeds capacity {st.cap}")
